@@ -39,7 +39,7 @@ ASSUMPTIONS = [
 
 # (with explicit factors as well: 'combo-8' is held as the float 8.0 inside)
 # ('obj:...' = an Objective instance with a non-integer factor, which has no string form)
-OBJECTIVES = ["flops", "size", "write", "combo", "limit", "combo-8", "limit-3", "obj:combo-0.5", "obj:limit-2.5"]
+OBJECTIVES = ["flops", "size", "write", "combo", "limit", "combo-8", "limit-3", "obj:combo-0.5", "obj:limit-2.5", "obj:combo-1e-05"]
 REAL_METHODS = ["greedy", "random-greedy", "labels", "kahypar", "random"]
 FLAKY = "verif-flaky"
 
@@ -47,6 +47,8 @@ FLAKY = "verif-flaky"
 def resolve_objective(ctg, name):
     if name == "obj:combo-0.5":
         return ctg.scoring.ComboObjective(factor=0.5)
+    if name == "obj:combo-1e-05":
+        return ctg.scoring.ComboObjective(factor=1e-5)
     if name == "obj:limit-2.5":
         return ctg.scoring.LimitObjective(factor=2.5)
     return name
